@@ -365,7 +365,7 @@ def steered_mnemonics(R, keys, rng, per_feature):
                         served[0] += 1
                         return i.to_bytes(2, 'big') + bytes(n - 2)
                     return real_os.urandom(n)
-            old = keys.os
+            old = getattr(keys, 'os', real_os)      # (a module that does not go through `os` at all is simply not steered)
             keys.os = _OS()
             try:
                 st, words = mon.call(keys.mnemonic_new)
@@ -409,7 +409,7 @@ def steered_mnemonics(R, keys, rng, per_feature):
                     served[0] += 1
                     return i.to_bytes(2, 'big') + bytes(n - 2)
                 return real_os.urandom(n)
-        old = keys.os
+        old = getattr(keys, 'os', real_os)
         keys.os = _OS2()
         try:
             st, words = mon.call(keys.mnemonic_new)
